@@ -21,11 +21,11 @@ import common  # noqa: E402
 S0 = {'foo': 'padding:10', 'tab': 'margin:1'}
 S1 = {'foo': 'padding:10', 'tab': 'border:1'}
 MS1 = {'bad': 'x)', 'good': 'section.sn', 'sig': 'p.sig{-- ${who}}'}
-OBJS = ['m1', 'm2', 'm3', 'm4', 'm5', 'm6', 's1', 's2', 's3', 's4', 's5', 's6', 's7', 's8']
+OBJS = ['m1', 'm2', 'm3', 'm4', 'm5', 'm6', 'm7', 'm8', 's1', 's2', 's3', 's4', 's5', 's6', 's7', 's8', 's9', 's10']
 
 ABBR = {
     'markup': {'ok': 'ul>li.item$*2>a', 'wrap': 'ul>li*', 'badparse': 'ul>li)', 'badsnippet': 'ul>bad*', 'bem': 'div.b>.-e_m+p.b__x', 'var': '!>sig'},
-    'css': {'num': 'foo', 'tab': 'tab', 'plain': 'p10+m0-a', 'raw': '@k', 'fnarg': 'trf:sc(2)', 'fnbare': 'trf:sc', 'badparse': 'p{'},
+    'css': {'num': 'foo', 'tab': 'tab', 'plain': 'p10+m0-a', 'raw': '@k', 'fnarg': 'trf:sc(2)', 'fnbare': 'trf:sc', 'alias': 'p10r+m5v', 'badparse': 'p{'},
 }
 
 
@@ -38,6 +38,10 @@ def make_objects(emmet):
         'm4': {},
         'm6': {'variables': {'lang': 'fr', 'who': 'me'}, 'snippets': {'sig': 'p.sig{-- ${who}}'}},
         'm5': {'syntax': 'pug', 'text': ['x', '', 'y'], 'options': {'bem.enabled': True, 'comment.enabled': True}},
+        'm7': {'syntax': 'jsx', 'options': {'markup.attributes': {'class': 'class', 'for': 'for'}}},
+        'm8': {'syntax': 'jsx'},
+        's9': {'type': 'stylesheet', 'options': {'stylesheet.unitAliases': {'v': 'vw', 'r': 'rpx'}}},
+        's10': {'type': 'stylesheet', 'snippets': {'gtx': 'grid-template: repeat(2, ${1'}, 'options': {'stylesheet.intUnit': 'px'}, 'cache': k1},
         's1': {'type': 'stylesheet', 'snippets': dict(S0), 'options': {'stylesheet.intUnit': 'pt'}, 'cache': k1},
         's2': {'type': 'stylesheet', 'snippets': dict(S0), 'options': {'stylesheet.intUnit': 'px'}, 'cache': k1},
         's3': {'type': 'stylesheet', 'snippets': dict(S1), 'options': {'stylesheet.intUnit': 'pt'}, 'cache': k1},
@@ -161,7 +165,7 @@ def _run_histories(items):
 
 def run(out):
     quick = out.tier == 'quick'
-    out.rule = ('one case per call history generated by Session.tla (all histories up to the bound over 92 call kinds = 14 caller '
+    out.rule = ('one case per call history generated by Session.tla (all histories up to the bound over 128 call kinds = 18 caller '
                 'objects x abbreviations, plus simulated longer ones); non-trivial = at least two calls that touch the same caller '
                 'object or the same cache; distinct by history')
     out.assumptions = ['CPython gc census: an object of a class defined in emmet.* that is alive after the call, was not alive before '
@@ -197,6 +201,11 @@ def run(out):
         r.tagged.clear()                # the census walks every object of the interpreter: keep the heap small before forking workers
         if r.mode == 'simulate':
             new_h = set(common.sample(sorted(new_h), 700 if quick else 30000, out.seed))
+        elif quick and name == 'histories-exhaustive':
+            # quick tier: of the two-call histories that mix a markup and a stylesheet call (which share no state in the model) every
+            # fourth is executed, chosen by a hash; all others are executed
+            import zlib as _z
+            new_h = set(h for h in new_h if len(h) < 2 or h[0][0][0] == h[1][0][0] or (_z.crc32(repr(h).encode()) + out.seed) % 4 == 0)
         elif name == 'histories-3-calls':
             new_h = set(common.sample(sorted(new_h), 90000, out.seed))
         for h in new_h:
@@ -238,7 +247,7 @@ def run(out):
     def shares(h):
         seen = set()
         for c, ab in h:
-            key = c if c[0] == 'm' else ('k1' if c in ('s1', 's2', 's3', 's6', 's7', 's8') else c)
+            key = c if c[0] == 'm' else ('k1' if c in ('s1', 's2', 's3', 's6', 's7', 's8', 's10') else c)
             if key in seen:
                 return True
             seen.add(key)
